@@ -964,7 +964,9 @@ int vf_hostile_int(vf_rng *r) {
 double vf_hostile_double(vf_rng *r) {
     static const double sp[] = {0.0, -0.0, 1e300, -1e300, 2.2250738585072014e-308, 1e-320, 1.5707963267948966,
                                 -1.5707963267948966, 3.141592653589793, -3.141592653589793, 6.283185307179586,
-                                1e18, -1e18, 4e15};
+                                1e18, -1e18, 4e15,
+                                /* large enough that a sum or a product of two of them overflows */
+                                1.7976931348623157e308, -1.7976931348623157e308, 1e308, -1e308, 9e307, -9e307, 1.4e154, -1.4e154};
     switch (vf_below(r, 8)) {
         case 0:
             return NAN;
